@@ -87,6 +87,10 @@ void taskBegin(int id) {
 }
 
 void taskEnd(int id) {
+    if (t_lockDepth > 0) {
+        // the task is over and still owns a Xerces mutex: every other task that needs it would wait for ever
+        static const char m[] = "simsched: a task ended while holding a Xerces mutex (lock without unlock)\n"; ssize_t r = write(2, m, sizeof m - 1); (void)r; _exit(81);
+    }
     g_state[id] = 2;
     int next = -1;
     if (g_cfg.strategy == Replay && g_replayIdx < g_cfg.replay.size() && g_state[g_cfg.replay[g_replayIdx].second] == 1) {
